@@ -60,7 +60,7 @@ def run(ctx):
         "and through the offered decoder reading them back (TransferSyntax has no accessor for explicit_vr)",
         "the list of built-in entry definitions is hand-copied from transfer-syntax-registry/src/lib.rs (46 constants); "
         "an entry added later is still judged through iter(), only the 'registered as defined' drift rule would report it",
-        "feature sets covered: deflate+rle+jpeg (harness), default, rle, jpeg, deflate; charls/openjpeg/jpegxl need C "
+        "feature sets covered: deflate+rle+jpeg (harness) and default in the quick tier, plus rle, jpeg, deflate alone in the thorough tier; charls/openjpeg/jpegxl need C "
         "libraries or crates that are not available offline",
     ]
     r = vlib.tlc(_dict.SPEC, "MC_TsRegistry", "MC_TsRegistry.cfg", workers=2, timeout=600)
@@ -68,7 +68,11 @@ def run(ctx):
     ctx.require_coverage(r, ["RegisterNew", "RegisterReplace", "RegisterIgnored"])
 
     vlib.build_harness(["drv_tsreg"])
-    sets = [("harness", None), ("default", ""), ("rle", "rle"), ("jpeg", "jpeg"), ("deflate", "deflate")]
+    # harness (all three codec features) and default (none of them) exercise both sides of every cfg in entries.rs;
+    # the single-feature sets are added in the thorough tier
+    sets = [("harness", None), ("default", "")]
+    if not ctx.quick:
+        sets += [("rle", "rle"), ("jpeg", "jpeg"), ("deflate", "deflate")]
     seen_desc = set()
     events = []
     for label, feats in sets:
